@@ -923,7 +923,7 @@ def _worker(task):
                 out = run_iso_history(setup, hh, saved, tmp)
                 key = ("iso", setup) + tuple(hh[:out["steps"]])
             part["evaluations"] += 1
-            part["distinct"].add(hashlib.md5(repr(key).encode()).hexdigest())
+            part["distinct"].add(hashlib.md5(repr(key).encode()).digest()[:8])
             if out["fail"] is not None:
                 part["failures"].append(out["fail"])
                 skip = tuple(out["fail"]["case"])
